@@ -256,12 +256,23 @@ def gen():
     if not m:
         raise TranslateError("operatorIsLeftUnary not found")
     ilu = strip_comments(m.group(1))
-    if re.search(r"return\s*\(onlyUnary\s*\?\s*prevTokenIsOp\s*:\s*nextTokenIsOp\);", ilu):
-        operand_then_unary_is_binary = False
-    elif re.search(r"return\s*\(onlyUnary\s*&&\s*prevTokenIsOp\);", ilu):
-        operand_then_unary_is_binary = True
-    else:
+    if not re.search(r"return\s*\(onlyUnary\s*\?\s*prevTokenIsOp\s*:\s*nextTokenIsOp\);", ilu):
         raise TranslateError("operatorIsLeftUnary: the prevTokenIsOp != nextTokenIsOp branch changed")
+    # the block "a value or a closed pair (that is not a cast) followed by + - * & is binary"
+    ilu_n = re.sub(r"\s+", " ", ilu)
+    f39 = ("if (!onlyUnary) { if (!(state.prevToken->type() & tokenType::op)) { return false; } "
+           "if (prevOpType & operatorType::pairEnd) { const bool prevPairIsCast = ( state.operatorCount() "
+           "&& (state.lastOperator().opType() & operatorType::parenCast) "
+           "&& (state.lastOperator().token->origin.position.start == state.prevToken->origin.position.start) ); "
+           "if (!prevPairIsCast) { return false; } } }")
+    if f39 in ilu_n:
+        operand_then_binary = True
+        if not re.search(r"if \(!onlyUnary\) \{ return false; \} \} " + re.escape(f39) + r" const bool nextTokenIsOp", ilu_n):
+            raise TranslateError("operatorIsLeftUnary: the binary-after-operand block moved")
+    elif "prevPairIsCast" in ilu_n or "tokenType::op" in ilu_n:
+        raise TranslateError("operatorIsLeftUnary: the binary-after-operand block has an unknown shape")
+    else:
+        operand_then_binary = False
     cast_end_prefix = bool(re.search(r"state\.prevToken\s*==\s*state\.castEndToken", ilu))
     if cast_end_prefix != bool(re.search(r"state\.pushPair\(state\.prevToken\s*==\s*state\.castEndToken\s*\?\s*NULL\s*:\s*state\.prevToken\)", strip_comments(psrc))):
         raise TranslateError("castEndToken is used in operatorIsLeftUnary but not in pushPair (or the reverse)")
@@ -270,14 +281,29 @@ def gen():
     if not m:
         raise TranslateError("applyFasterOperators not found")
     afo = strip_comments(m.group(1))
-    ternary_right = bool(re.search(r"isColon", afo))
-    if ternary_right and not (re.search(r"isQuestionMark\s*&&\s*\(prevOp\.precedence\s*==\s*op\.precedence\)", afo)
-                              and re.search(r"!isColon\s*&&\s*\(prevOp\.opType\s*&\s*operatorType::questionMark\)", afo)
-                              and re.search(r"closesTernary", afo)):
-        raise TranslateError("applyFasterOperators: ternary handling has an unknown shape")
-    if not re.search(r"\(op\.precedence\s*>\s*prevOp\.precedence\)\s*\|\|\s*\(\(op\.precedence\s*==\s*prevOp\.precedence\)\s*&&"
-                     r"\s*op::associativity\[prevOp\.precedence\]\s*==\s*op::leftAssociative\)", afo):
+    afo_n = re.sub(r"\s+", " ", afo)
+    prec_test = ("(op.precedence > prevOp.precedence) || ((op.precedence == prevOp.precedence) && "
+                 "op::associativity[prevOp.precedence] == op::leftAssociative)")
+    if prec_test not in afo_n:
         raise TranslateError("applyFasterOperators: the precedence comparison changed")
+    tail = ("if (applyPrevOp) { applyOperator(state.popOperator()); if (state.hasError) { return; } "
+            "if (foundQuestionMark) { break; } continue; } break; }")
+    mode1 = ("bool foundQuestionMark = false; if (op.precedence == prevOp.precedence) { if (op.opType & operatorType::questionMark) "
+             "{ applyPrevOp = false; } else if (op.opType & operatorType::colon) { foundQuestionMark = (prevOp.opType & "
+             "operatorType::questionMark); } } " + tail)
+    mode2 = ("bool foundQuestionMark = false; if (op.opType & operatorType::colon) { applyPrevOp = true; foundQuestionMark = "
+             "(prevOp.opType & operatorType::questionMark); } else if (prevOp.opType & operatorType::questionMark) { applyPrevOp = false; } "
+             "else if ((op.precedence == prevOp.precedence) && (op.opType & operatorType::questionMark)) { applyPrevOp = false; } " + tail)
+    if "applyPrevOp" not in afo_n:
+        if not re.search(r"if \(" + re.escape(prec_test) + r"\) \{ applyOperator\(state\.popOperator\(\)\); if \(state\.hasError\) \{ return; \} continue; \} break; \}", afo_n):
+            raise TranslateError("applyFasterOperators: unknown loop shape")
+        ternary_mode = 0
+    elif mode1 in afo_n:
+        ternary_mode = 1
+    elif mode2 in afo_n:
+        ternary_mode = 2
+    else:
+        raise TranslateError("applyFasterOperators: the handling of ? and : has an unknown shape")
     # string/char nodes: is the encoding prefix printed?
     ssrc = strip_comments(read(LANG + "/expr/stringNode.cpp"))
     csrc = strip_comments(read(LANG + "/expr/charNode.cpp"))
@@ -335,14 +361,15 @@ def gen():
           "def prettierMaxLineWidth : Nat := %s" % ml.group(1), "",
           "/-- sizeofNode::print writes the operand as it was parsed (`sizeof(x)`, `sizeof x`) instead of always adding ( ) -/",
           "def sizeofPrintsAsWritten : Bool := %s" % ("true" if sizeof_as_written else "false"),
-          "/-- operatorIsLeftUnary: `+ - * & ::` after an operand are binary whatever follows -/",
-          "def operandThenUnaryIsBinary : Bool := %s" % ("true" if operand_then_unary_is_binary else "false"),
+          "/-- operatorIsLeftUnary: `+ - * & ::` after a value or a closed pair that is not a cast are binary whatever follows -/",
+          "def operandThenBinary : Bool := %s" % ("true" if operand_then_binary else "false"),
           "/-- operatorIsLeftUnary: a closing pair after the operator ends the operand -/",
           "def pairEndEndsOperand : Bool := %s" % ("true" if pairend_ends_operand else "false"),
           "/-- the ) of a (type) cast counts as a prefix operator (operatorIsLeftUnary, pushPair) -/",
           "def castEndIsPrefix : Bool := %s" % ("true" if cast_end_prefix else "false"),
-          "/-- applyFasterOperators: `?` never pops level 16 and `:` closes the nearest `?` -/",
-          "def ternaryNestsRight : Bool := %s" % ("true" if ternary_right else "false"),
+          "/-- applyFasterOperators: 0 = `?` `:` are ordinary level-16 operators; 1 = `?` keeps a pending `?`/`:` and `:` stops at its `?`;",
+          "    2 = additionally a pending `?` is closed only by its `:`, which applies everything in between -/",
+          "def ternaryMode : Nat := %d" % ternary_mode,
           "/-- stringNode::print / charNode::print emit the encoding prefix and the suffix -/",
           "def stringNodePrintsEncoding : Bool := %s" % ("true" if str_prefix else "false"),
           "def charNodePrintsEncoding : Bool := %s" % ("true" if chr_prefix else "false"),
